@@ -22,6 +22,8 @@ from chisym import harness as H  # noqa: E402
 
 MODULES = {
     'C01': 'harness.c01',
+    'C02': 'harness.c02',
+    'C03': 'harness.c03',
     'C04': 'harness.c04',
     'C05': 'harness.c05',
 }
